@@ -84,8 +84,11 @@ IDManager::GetHeartBeater()  //
  *############################################################################*/
 
 IDManager::HeartBeater::~HeartBeater()
-{  //
-  _id_vec[*id_].store(false, kRelaxed);
+{
+  // expire the heartbeat before the ID can be given to another thread
+  const auto id = *id_;
+  id_.reset();
+  _id_vec[id].store(false, kRelaxed);
 }
 
 auto
